@@ -362,6 +362,13 @@ func genC19Tasks(g *Gen, seed uint64, idx int64) []C19Task {
 				// the same call on the same (shared) arguments as another task: the configuration
 				// in which a per-function cache or scratch buffer is hit from two sides
 				call = prev[g.R.Intn(len(prev))].clone()
+				if g.R.Chance(1, 3) {
+					// ... or its sibling: the same geometry with another scalar parameter (radius,
+					// layer count, target zoom, altitude base) - the configuration in which a cache
+					// keyed too coarsely, or a "current parameter" kept between two critical sections,
+					// serves one call the other's value
+					varyCall(g, call)
+				}
 			} else {
 				call = pick().Gen(g)
 			}
@@ -381,6 +388,62 @@ func genC19Tasks(g *Gen, seed uint64, idx int64) []C19Task {
 		}
 	}
 	return tasks
+}
+
+// varyCall changes one scalar parameter of a call in place, keeping its geometry and its
+// cost class.
+func varyCall(g *Gen, c *Call) {
+	switch c.Op {
+	case "corridor":
+		if len(c.Flts) > 0 && g.R.Chance(2, 3) {
+			c.Flts[0] = round10(c.Flts[0] * []float64{0.1, 0.5, 0.8, 1.3}[g.R.Intn(4)])
+		} else if len(c.Bools) > 0 {
+			c.Bools[0] = !c.Bools[0]
+		}
+	case "fit_clearance":
+		if len(c.Flts) > 0 {
+			c.Flts[0] = round10(c.Flts[0] * []float64{0.5, 0.8, 1.3}[g.R.Intn(3)])
+		}
+	case "nlayer":
+		if len(c.Ints) >= 2 && len(c.IDs) <= 30 {
+			i := g.R.Intn(2)
+			c.Ints[i] = (c.Ints[i] + 1) % 3
+		}
+	case "merge_ext", "merge":
+		if len(c.Ints) > 0 && c.Ints[0] > 0 {
+			c.Ints[0]--
+		}
+	case "tiles_to_ext", "tiles_to_sp", "ext_to_qalt":
+		i := 1 // the altitude offset
+		if c.Op == "ext_to_qalt" {
+			i = 3
+		}
+		if len(c.Ints) > i {
+			if g.R.Bool() && c.Ints[i] > 0 {
+				c.Ints[i] = 0
+			} else {
+				c.Ints[i] += 1 + g.R.Range(0, 3)
+			}
+		}
+	case "change_ext_zoom":
+		if len(c.Ints) >= 2 {
+			for i := range c.Ints[:2] {
+				if c.Ints[i] > 0 {
+					c.Ints[i]-- // coarser: never more expensive
+				}
+			}
+		}
+	case "project_roundtrip":
+		if len(c.Ints) > 0 {
+			for {
+				e := []int64{3857, 6677, 32654, 4326}[g.R.Intn(4)]
+				if e != c.Ints[0] {
+					c.Ints[0] = e
+					break
+				}
+			}
+		}
+	}
 }
 
 func callSetHash(tasks []C19Task) uint64 {
